@@ -248,10 +248,10 @@ func (c *engineCtx) snapshot(step int, sol nextroute.Solution) {
 					w = num(a)
 				}
 			}
-			fmt.Fprintf(out, "%s cell %d %d %s tr %s ct %s a %s s %s e %s L %s D %s W %s P %d\n", p, vi, i, ids[i],
+			fmt.Fprintf(out, "%s cell %d %d %s tr %s ct %s a %s s %s e %s L %s D %s W %s P %d K %s\n", p, vi, i, ids[i],
 				num(s.TravelDurationValue()), num(s.CumulativeTravelDurationValue()),
 				num(s.ArrivalValue()), num(s.StartValue()), num(s.EndValue()),
-				dashIfEmpty(strings.Join(lv, ",")), d, w, s.Position())
+				dashIfEmpty(strings.Join(lv, ",")), d, w, s.Position(), slackOf(s, i))
 		}
 	}
 	fmt.Fprintf(out, "%s planned %s\n", p, collKeys(sol.PlannedPlanUnits()))
@@ -481,6 +481,59 @@ func (u *userVehicleCons) DoesVehicleHaveViolations(v nextroute.SolutionVehicle)
 	return u.value(v.Last()) > u.max
 }
 
+type userBothCons struct {
+	userCons
+	veh userCons
+}
+
+func (u *userBothCons) DoesStopHaveViolations(s nextroute.SolutionStop) bool {
+	return u.value(s) > u.max
+}
+
+func (u *userBothCons) DoesVehicleHaveViolations(v nextroute.SolutionVehicle) bool {
+	return u.veh.value(v.Last()) > u.veh.max
+}
+
+// registerUsers adds the user constraints of the case.  A stop-level line
+// flagged "paired" (6th field 1) and the vehicle-level line that follows it
+// become ONE constraint object with two exact checks.
+func registerUsers(model nextroute.Model, c *engineCtx) {
+	mk := func(i int, fsu []string) userCons {
+		mx, _ := strconv.ParseFloat(fsu[2], 64)
+		base := userCons{ctx: c, field: fsu[1], max: mx, vehLevel: fsu[3] == "1", temporal: fsu[4] == "1", id: i}
+		if strings.HasPrefix(fsu[1], "level") {
+			base.field = "level"
+			base.r, _ = strconv.Atoi(strings.TrimPrefix(fsu[1], "level"))
+		}
+		return base
+	}
+	for i := 0; i < len(userDefs); i++ {
+		fsu := userDefs[i]
+		base := mk(i, fsu)
+		var err error
+		switch {
+		case len(fsu) > 5 && fsu[5] == "1" && !base.vehLevel && i+1 < len(userDefs) && userDefs[i+1][3] == "1":
+			err = model.AddConstraint(&userBothCons{userCons: base, veh: mk(i+1, userDefs[i+1])})
+			i++
+		case base.vehLevel:
+			err = model.AddConstraint(&userVehicleCons{base})
+		default:
+			err = model.AddConstraint(&userStopCons{base})
+		}
+		if err != nil {
+			panic(err)
+		}
+	}
+}
+
+// slackOf: the cached slack; the first stop of a vehicle is never assigned by isFeasible (it keeps MaxFloat64)
+func slackOf(s nextroute.SolutionStop, i int) string {
+	if i == 0 {
+		return "-"
+	}
+	return num(nextroute.VerifSlack(s))
+}
+
 func runEngine(b block) {
 	defer func() {
 		if r := recover(); r != nil {
@@ -555,23 +608,7 @@ func runEngine(b block) {
 					c.waitVeh = k
 				}
 			}
-			for i, fsu := range userDefs {
-				mx, _ := strconv.ParseFloat(fsu[2], 64)
-				base := userCons{ctx: c, field: fsu[1], max: mx, vehLevel: fsu[3] == "1", temporal: fsu[4] == "1", id: i}
-				if strings.HasPrefix(fsu[1], "level") {
-					base.field = "level"
-					base.r, _ = strconv.Atoi(strings.TrimPrefix(fsu[1], "level"))
-				}
-				var err error
-				if base.vehLevel {
-					err = model.AddConstraint(&userVehicleCons{base})
-				} else {
-					err = model.AddConstraint(&userStopCons{base})
-				}
-				if err != nil {
-					panic(err)
-				}
-			}
+			registerUsers(model, c)
 			sol, err := nextroute.NewSolution(model)
 			if err != nil {
 				fmt.Fprintf(out, "%s build solution-error\n", b.id)
